@@ -210,8 +210,12 @@ func vfCheckCrashImage(root string, seq int, img vfDirImage, conf *vfStoreConf, 
 	}
 	after := vfReadDirImage(dir)
 	for name, data := range img {
-		if now, ok := after[name]; !ok || string(now) != string(data) {
-			return vfFail("crash image [%s]: the Flush after reopen rewrote or removed the existing file %s (segment id reused?)", what, name)
+		now, ok := after[name]
+		if !ok && vfProtectedFiles != nil && !vfProtectedFiles[name] {
+			continue // a leftover of the interrupted segment was cleaned up: allowed
+		}
+		if !ok || string(now) != string(data) {
+			return vfFail("crash image [%s]: reopen + Add + Flush rewrote or removed the existing file %s (segment id reused?)", what, name)
 		}
 	}
 	for name := range after {
@@ -229,8 +233,52 @@ func vfCheckCrashImage(root string, seq int, img vfDirImage, conf *vfStoreConf, 
 	if err := st.Close(); err != nil {
 		return vfFail("crash image [%s]: Close fails: %v", what, err)
 	}
+	// a second restart: the recovered directory (damaged leftovers + the new segment) opens again,
+	// everything durable and the document flushed after the recovery are found, ids keep growing
+	st2, err := vfOpenStore(dir, conf)
+	if err != nil {
+		return vfFail("crash image [%s]: the SECOND reopen (after recovery, Add, Flush, Close) fails: %v", what, err)
+	}
+	defer st2.Close()
+	durable2 := map[uint32]*vfStoreDoc{probe.ID: probe}
+	for id, d := range durable {
+		durable2[id] = d
+	}
+	if v := vfCheckDurable(st2, conf, durable2, everAdded, "second reopen of crash image ["+what+"]"); v != nil {
+		return v
+	}
+	var names2 []string
+	for n := range after {
+		names2 = append(names2, n)
+	}
+	max2 := vfMaxSegmentID(names2)
+	probe2 := &vfStoreDoc{ID: 1<<30 + 900001, N: 900001, Vec: make([]float32, conf.Dim), Word: "probe"}
+	probe2.Vec[0] = 1
+	everAdded[probe2.ID] = true
+	if _, err := vfStoreAdd(st2, conf, probe2); err != nil {
+		return vfFail("crash image [%s]: Add after the second reopen fails: %v", what, err)
+	}
+	if err := st2.Flush(); err != nil {
+		return vfFail("crash image [%s]: Flush after the second reopen fails: %v", what, err)
+	}
+	for name := range vfReadDirImage(dir) {
+		if _, old := after[name]; old {
+			continue
+		}
+		if m := vfSegFileRe.FindStringSubmatch(name); m != nil {
+			id, _ := strconv.ParseUint(m[2], 10, 64)
+			if id <= max2 {
+				return vfFail("crash image [%s]: after the second reopen a Flush created %s although files with segment id %d already existed (identifier reused)", what, name, max2)
+			}
+		}
+	}
 	return nil
 }
+
+// set per case: the files of COMPLETED segments (present before the interrupted flush began). Only
+// these must survive a recovery untouched; leftovers of an incomplete segment may be cleaned up
+// (removed), but never rewritten. nil = every file of the image is protected.
+var vfProtectedFiles map[string]bool
 
 // set per case: the in-flight documents were spread over more than one memtable (several segments
 // are written by the interrupted flush, so "some but not all" is legitimate at segment granularity)
@@ -331,6 +379,14 @@ func vfC10Run(c vfC10Case, ctx *vfCtx) *vfViolation {
 		}
 	}
 	sort.Strings(newFiles)
+	vfProtectedFiles = map[string]bool{}
+	for name := range pre {
+		vfProtectedFiles[name] = true
+	}
+	for _, name := range newFiles {
+		delete(vfProtectedFiles, name)
+	}
+	defer func() { vfProtectedFiles = nil }()
 
 	seq := 0
 	images := int64(0)
